@@ -108,7 +108,11 @@ func GenF64(c *simkit.Choices, allowNonFinite bool) Val {
 func GenF32(c *simkit.Choices, allowNonFinite bool) Val {
 	switch c.N(3) {
 	case 0:
-		return F32(float32(f64Specials[c.N(12)]))
+		f := float32(f64Specials[c.N(12)])
+		if math.IsInf(float64(f), 0) && !allowNonFinite {
+			f = math.MaxFloat32
+		}
+		return F32(f)
 	case 1:
 		return F32(float32(c.N(100000)) / 64)
 	default:
